@@ -22,8 +22,10 @@ namespace BitSerializer::Detail
 			while (!scope.IsEnd())
 			{
 				TValue value;
-				Serialize(scope, value);
-				hint = cont.insert(hint, std::move(value));
+				// Skip values which could not be loaded (null or mismatched type), like for multimaps
+				if (Serialize(scope, value)) {
+					hint = cont.insert(hint, std::move(value));
+				}
 			}
 		}
 		else
